@@ -12,7 +12,8 @@
      NodeChangedAux (357)             the "flush, then start again" recursion with its nest counter (cap 100)
      DataNode::RemoveChild            `while(child->HasChildren()) child->RemoveChild(first key, recurse)`
    Index loops over a finite container that the body does not grow (the outer `for (i=last; i>=0; i--)` of the
-   jettison handlers, the supersede scan, field iterators, the BATCH loop with its nest counter) are structural.
+   jettison handlers, the supersede scan of NodeChangedAux (395-411, reached through SETDATA with
+   SETDATANODE_FLAG_ENABLESUPERCEDE: [BSetSup]), field iterators, the BATCH loop with its nest counter) are structural.
 
    Every fuelled function passes its fuel unchanged to the loops nested inside it and spends one unit per
    iteration of its own loop ("depth fuel"): [f fuel x = None] iff some single loop instance would iterate more
